@@ -11,6 +11,7 @@ import Nsl.Model.WF
 import Nsl.Model.Lower
 import Nsl.Model.CoreSem
 import Nsl.Model.Names
+import Nsl.Model.Opt
 import Nsl.Gen.Grammar
 /-!
 # Line-protocol driver: one request per line on stdin, one answer per line on stdout.
@@ -155,6 +156,16 @@ def handle (st : DState) (line : String) : DState × String :=
     | none => (st, "error")
   | ["wf"] => (st, match st.ir with
       | some p => " | ".intercalate (p.funcs.map fun f => f.name ++ ": " ++ WF.wfReport f p)
+      | none => "error")
+  | ["opt"] => (st, match st.ir with
+      | some p => (Codec.encProgram (Opt.optProgram p)).toStr
+      | none => "error")
+  | ["optmodel"] => (st, match st.prog with
+      | some p => (Codec.encProgram (Opt.optProgram p)).toStr
+      | none => "error")
+  | ["fwdok"] => (st, match st.ir with
+      | some p => " | ".intercalate (p.funcs.map fun f =>
+          f.name ++ ": " ++ (if Opt.forwardOK none (Opt.pass Opt.ccDecide f.code) then "ok" else "no"))
       | none => "error")
   | ["wfmodel"] => (st, match st.prog with
       | some p => " | ".intercalate (p.funcs.map fun f => f.name ++ ": " ++ WF.wfReport f p)
